@@ -16,6 +16,12 @@
 #include <gnutls/x509.h>
 #include <gnutls/abstract.h>
 #include "vf.h"
+#ifdef PROP_C18
+extern void vf_c18_observe(void);
+#define VF_OBSERVE() vf_c18_observe()
+#else
+#define VF_OBSERVE() ((void)0)
+#endif
 #include "gnutls_stubs.h"
 
 int vg_key_pk;
@@ -127,6 +133,7 @@ static int vg_pem_ok(const gnutls_datum_t *d)
 
 int gnutls_pubkey_import(gnutls_pubkey_t key, const gnutls_datum_t *data, gnutls_x509_crt_fmt_t format)
 {
+	VF_OBSERVE();
 	struct vg_key *k = (struct vg_key *)key;
 	__CPROVER_assert(format == GNUTLS_X509_FMT_PEM, "M5: keys are imported as PEM");
 	if (nondet_bool())
@@ -193,6 +200,7 @@ static int vg_sign_compatible(int algo, int pk)
 int gnutls_pubkey_verify_data2(gnutls_pubkey_t pubkey, gnutls_sign_algorithm_t algo, unsigned int flags,
 			       const gnutls_datum_t *data, const gnutls_datum_t *signature)
 {
+	VF_OBSERVE();
 	struct vg_key *k = (struct vg_key *)pubkey;
 
 	vg_verify_calls++;
@@ -269,6 +277,7 @@ int gnutls_decode_rs_value(const gnutls_datum_t *sig_value, gnutls_datum_t *r, g
 int gnutls_privkey_sign_data(gnutls_privkey_t signer, gnutls_digest_algorithm_t hash, unsigned int flags,
 			     const gnutls_datum_t *data, gnutls_datum_t *signature)
 {
+	VF_OBSERVE();
 	struct vg_key *k = (struct vg_key *)signer;
 	unsigned i, n;
 
@@ -303,6 +312,7 @@ unsigned gnutls_hmac_get_len(gnutls_mac_algorithm_t algorithm)
 int gnutls_hmac_fast(gnutls_mac_algorithm_t algorithm, const void *key, size_t keylen,
 		     const void *text, size_t textlen, void *digest)
 {
+	VF_OBSERVE();
 	unsigned i, n = gnutls_hmac_get_len(algorithm);
 
 	vg_hmac_calls++;
